@@ -4,6 +4,9 @@
 // duplicate constant cases, so one literal selects the clause), a select on a Done channel gives the literal ctxDone.
 // Expressions and statements are mapped to the constructors of CV.C05.T.Atom / Act through the small per-function vocabularies
 // below; anything else becomes `.unknown` (fail-closed: the theorems over the table fail). Logging, tracing and mutex calls are dropped.
+// Round 8c: also the tracker's entry points `enqueue` (nil = ongoing / channel by type / non-blocking send or ErrFullQueue + SetError + Cancel),
+// `Track` (meta / remote-synchronous / local), `Untrack`, `Recover`; a select of one communication + default is read as the literal
+// "communication ready" (a send is also an action).
 // Standard output is the Lean file.
 package main
 
@@ -28,12 +31,14 @@ type path struct {
 	acts  []string
 	calls int
 	done  bool
+	errAt string // round 8c: what `err == nil` means here (set by the last statement that assigned err; "" = the vocabulary's atom)
 }
 
 type vocab struct {
 	atoms  map[string]string
 	acts   map[string]string
 	ignore map[string]bool
+	prefix [][2]string
 }
 
 var phases = map[string]string{"PhaseError": ".error", "PhaseQueued": ".queued", "PhaseInProgress": ".inProgress", "PhaseDone": ".done"}
@@ -71,6 +76,7 @@ func mk(atoms, acts map[string]string, ignore ...string) *vocab {
 	}
 	for k, c := range types {
 		v.atoms["typ == "+k] = ".typIs " + c
+		v.atoms["typ == optracker."+k] = ".typIs " + c
 	}
 	if _, ok := v.acts["return"]; !ok {
 		v.acts["return"] = ".retVoid"
@@ -86,6 +92,9 @@ func mk(atoms, acts map[string]string, ignore ...string) *vocab {
 func (v *vocab) atomOf(s string, p *path) string {
 	if s == "op.Cancelled()" {
 		return fmt.Sprintf(".cancelled %d", p.calls)
+	}
+	if (s == "err == nil" || s == "nil == err") && p.errAt != "" {
+		return p.errAt
 	}
 	if a, ok := v.atoms[s]; ok {
 		return a
@@ -136,7 +145,7 @@ func expand(e ast.Expr, want bool) [][]lit {
 }
 
 func clone(p path) path {
-	return path{lits: append([]string{}, p.lits...), acts: append([]string{}, p.acts...), calls: p.calls, done: p.done}
+	return path{lits: append([]string{}, p.lits...), acts: append([]string{}, p.acts...), calls: p.calls, done: p.done, errAt: p.errAt}
 }
 
 func (v *vocab) withLits(p path, ls []lit) path {
@@ -154,7 +163,19 @@ func (v *vocab) act(p path, s string) path {
 	q := clone(p)
 	a, ok := v.acts[s]
 	if !ok {
+		for _, pf := range v.prefix {
+			if strings.HasPrefix(s, pf[0]) {
+				a, ok = pf[1], true
+			}
+		}
+	}
+	if !ok {
 		a = ".unknown /- " + strings.ReplaceAll(s, "-/", "- /") + " -/"
+	}
+	// "acts@atom": from here on `err == nil` on this path is that atom (the statement assigned err)
+	if i := strings.Index(a, "@"); i >= 0 {
+		q.errAt = a[i+1:]
+		a = a[:i]
 	}
 	for _, one := range strings.Split(a, ";") {
 		one = strings.TrimSpace(one)
@@ -216,7 +237,47 @@ func (v *vocab) one(s ast.Stmt, p path) []path {
 			}
 		}
 		return out
+	case *ast.BranchStmt:
+		if x.Tok == token.CONTINUE && x.Label == nil {
+			q := v.act(p, "continue")
+			q.done = true
+			return []path{q}
+		}
 	case *ast.SwitchStmt:
+		if x.Tag == nil && x.Init == nil {
+			// tagless switch = if / else-if chain: clause k under the negation of the earlier conditions
+			ps := []path{p}
+			var out []path
+			var def *ast.CaseClause
+			for _, c := range x.Body.List {
+				cc := c.(*ast.CaseClause)
+				if cc.List == nil {
+					def = cc
+					continue
+				}
+				if len(cc.List) != 1 {
+					return []path{v.act(p, "tagless switch case with several expressions")}
+				}
+				var next []path
+				for _, q := range ps {
+					for _, ls := range expand(cc.List[0], true) {
+						out = append(out, v.stmts(cc.Body, []path{v.withLits(q, ls)})...)
+					}
+					for _, ls := range expand(cc.List[0], false) {
+						next = append(next, v.withLits(q, ls))
+					}
+				}
+				ps = next
+			}
+			for _, q := range ps {
+				if def != nil {
+					out = append(out, v.stmts(def.Body, []path{q})...)
+				} else {
+					out = append(out, q)
+				}
+			}
+			return out
+		}
 		if x.Tag == nil || x.Init != nil {
 			break
 		}
@@ -243,22 +304,54 @@ func (v *vocab) one(s ast.Stmt, p path) []path {
 			out = append(out, r)
 		}
 		return out
+	case *ast.RangeStmt:
+		// a loop is ONE action of the enclosing table; its body is a table of its own (tableBody)
+		return []path{v.act(p, "range "+skel.Src(x.X))}
 	case *ast.SelectStmt:
-		var out []path
+		// exactly one communication + default: the literal is "the communication is ready"; a send is also an action.
+		// (round 8c: the non-blocking send of `enqueue`; before, only `<-op.ctx.Done()` was read.)
+		var comm, def *ast.CommClause
 		for _, c := range x.Body.List {
 			cc := c.(*ast.CommClause)
-			switch {
-			case cc.Comm == nil:
-				out = append(out, v.stmts(cc.Body, []path{v.withLits(p, []lit{{"<-op.ctx.Done()", false}})})...)
-			case skel.Src(cc.Comm) == "<-op.ctx.Done()":
-				out = append(out, v.stmts(cc.Body, []path{v.withLits(p, []lit{{"<-op.ctx.Done()", true}})})...)
-			default:
-				out = append(out, v.act(p, "select "+skel.Src(cc.Comm)))
+			if cc.Comm == nil {
+				def = cc
+			} else if comm == nil {
+				comm = cc
+			} else {
+				return []path{v.act(p, "select with several communications")}
 			}
 		}
+		if comm == nil || def == nil {
+			return []path{v.act(p, "select without default")}
+		}
+		a := skel.Src(comm.Comm)
+		yes := v.withLits(p, []lit{{a, true}})
+		if _, send := comm.Comm.(*ast.SendStmt); send {
+			yes = v.act(yes, "select "+a)
+		}
+		out := v.stmts(comm.Body, []path{yes})
+		out = append(out, v.stmts(def.Body, []path{v.withLits(p, []lit{{a, false}})})...)
 		return out
 	}
-	return []path{v.act(p, skel.Src(s))}
+	return []path{v.act(p, stmtKey(s))}
+}
+
+// stmtKey: the source of a statement; an RPC call keeps its service and method names (skel.Src replaces string literals)
+func stmtKey(s ast.Stmt) string {
+	if as, ok := s.(*ast.AssignStmt); ok && len(as.Rhs) == 1 {
+		if ce, ok := as.Rhs[0].(*ast.CallExpr); ok && skel.Src(ce.Fun) == "spt.rpcClient.CallContext" && len(ce.Args) == 6 {
+			var parts []string
+			for _, a := range ce.Args[1:] {
+				if bl, ok := a.(*ast.BasicLit); ok {
+					parts = append(parts, bl.Value)
+				} else {
+					parts = append(parts, skel.Src(a))
+				}
+			}
+			return skel.Src(as.Lhs[0]) + " " + as.Tok.String() + " rpc " + strings.Join(parts, " ")
+		}
+	}
+	return skel.Src(s)
 }
 
 func table(b *strings.Builder, name, doc, file, recv, fn string, v *vocab) {
@@ -266,6 +359,44 @@ func table(b *strings.Builder, name, doc, file, recv, fn string, v *vocab) {
 	fd := skel.Func(prog, f, recv, fn)
 	skel.Lines(fd) // strips logging / tracing in place
 	ps := v.stmts(fd.Body.List, []path{{}})
+	fmt.Fprintf(b, "/-- %s -/\ndef %s : Table := [\n", doc, name)
+	for i, p := range ps {
+		if !p.done {
+			p.acts = append(p.acts, ".retVoid")
+		}
+		sep := ","
+		if i == len(ps)-1 {
+			sep = ""
+		}
+		fmt.Fprintf(b, "  { lits := [%s], acts := [%s] }%s\n", strings.Join(p.lits, ", "), strings.Join(p.acts, ", "), sep)
+	}
+	b.WriteString("]\n\n")
+}
+
+// tableBody: the paths through the body of the first `for … range` of the function (one iteration; a path that does not return goes on
+// with the next element: `.retVoid`).
+func tableBody(b *strings.Builder, name, doc, file, recv, fn string, v *vocab) {
+	tableBodyN(b, name, doc, file, recv, fn, v, 0)
+}
+
+// tableBodyN: the body of the idx-th top-level range loop
+func tableBodyN(b *strings.Builder, name, doc, file, recv, fn string, v *vocab, idx int) {
+	f := skel.Parse(prog, file)
+	fd := skel.Func(prog, f, recv, fn)
+	skel.Lines(fd)
+	var body []ast.Stmt
+	for _, s := range fd.Body.List {
+		if rs, ok := s.(*ast.RangeStmt); ok {
+			if idx == 0 && body == nil {
+				body = rs.Body.List
+			}
+			idx--
+		}
+	}
+	ps := []path{{acts: []string{".unknown /- no range loop -/"}, done: true}}
+	if body != nil {
+		ps = v.stmts(body, []path{{}})
+	}
 	fmt.Fprintf(b, "/-- %s -/\ndef %s : Table := [\n", doc, name)
 	for i, p := range ps {
 		if !p.done {
@@ -343,6 +474,81 @@ func main() {
 			"err = spt.enqueue(ctx, api.PinCid(pi.Cid), optracker.OperationUnpin)": ".enqueueUnpin",
 			"return spt.Status(ctx, pi.Cid), err": ".retStatusErr", "return spt.Status(ctx, pi.Cid), nil": ".retNil",
 		}))
+	// round 8c: the entry points of the tracker
+	table(&b, "enqueue", "Tracker.enqueue", st, "*Tracker", "enqueue", mk(
+		map[string]string{"op == nil": ".opNil", "ch <- op": ".sendOk"},
+		map[string]string{
+			"op := spt.optracker.TrackNewOperation(ctx, c, typ, optracker.PhaseQueued)": ".trackNewQ", "return nil": ".retNil",
+			"var ch chan *optracker.Operation": "", "ch = spt.pinCh": ".chPin", "ch = spt.unpinCh": ".chUnpin", "select ch <- op": ".send",
+			"err := ErrFullQueue": ".errFull", "op.SetError(err)": ".setError", "op.Cancel()": ".cancel", "return err": ".retErr",
+		}))
+	table(&b, "track", "Tracker.Track", st, "*Tracker", "Track", mk(
+		map[string]string{"c.Type == api.MetaType": ".isMeta", "c.IsRemotePin(spt.peerID)": ".isRemote", "op == nil": ".opNil", "err == nil": ".errNil"},
+		map[string]string{
+			"op := spt.optracker.TrackNewOperation(ctx, c, optracker.OperationRemote, optracker.PhaseInProgress)": ".trackNewRemote",
+			"return nil": ".retNil", "err := spt.unpin(op)": ".call", "op.Cancel()": ".cancel", "op.SetError(err)": ".setError",
+			"spt.optracker.Clean(ctx, op)": ".clean", "return spt.enqueue(ctx, c, optracker.OperationPin)": ".retEnqueuePin",
+		}))
+	table(&b, "untrack", "Tracker.Untrack", st, "*Tracker", "Untrack", mk(nil,
+		map[string]string{"return spt.enqueue(ctx, api.PinCid(c), optracker.OperationUnpin)": ".retEnqueueUnpinCid"}))
+	table(&b, "recover", "Tracker.Recover", st, "*Tracker", "Recover", mk(
+		map[string]string{"ok": ".found"},
+		map[string]string{
+			"pi, ok := spt.optracker.GetExists(ctx, c)": ".getExists", "return spt.recoverWithPinInfo(ctx, pi)": ".retRecOp",
+			"return spt.recoverWithPinInfo(ctx, spt.Status(ctx, c))": ".retRecStatus",
+		}))
+	stv := mk(
+		map[string]string{"ok": ".found", "err == state.ErrNotFound": ".notFound", "gpin.Type == api.MetaType": ".isMeta",
+			"gpin.IsRemotePin(spt.peerID)": ".isRemote", "ipfsStatus == api.TrackerStatusUnpinned": ".ipfsUnpinned"},
+		map[string]string{
+			"oppi, ok := spt.optracker.GetExists(ctx, c)": ".getExists", "return oppi": ".retOp", "var gpin *api.Pin": "",
+			"st, err := spt.getState(ctx)": "@.stateOk", "addError(pinInfo, err)": ".addError", "return pinInfo": ".retInfo",
+			"gpin, err = st.Get(ctx, c)": "@.getOk", "pinInfo.Name = gpin.Name": "", "var ips api.IPFSPinStatus": "",
+			`err = rpc "" "IPFSConnector" "PinLsCid" gpin &ips`: ".pinLsCid@.lsOk", "ipfsStatus := ips.ToTrackerStatus()": "",
+			"pinInfo.Error = errUnexpectedlyUnpinned.Error()": "", "pinInfo.Status = ipfsStatus": ".setIpfs",
+		})
+	stv.prefix = [][2]string{{"pinInfo := &api.PinInfo{ Cid: c, Peer: spt.peerID,", ""}}
+	for k, c := range statuses {
+		stv.acts["pinInfo.Status = "+k] = ".setStatus " + c
+	}
+	table(&b, "status", "Tracker.Status", st, "*Tracker", "Status", stv)
+	aev := mk(nil, map[string]string{"pinInfo.Error = err.Error()": ""})
+	for k, c := range statuses {
+		aev.acts["pinInfo.Status = "+k] = ".setStatus " + c
+	}
+	table(&b, "addError", "addError (stateless.go)", st, "", "addError", aev)
+	rav := func() *vocab {
+		return mk(map[string]string{"err == nil": ".errNil"}, map[string]string{
+			"statuses, err := spt.statusAll(ctx, api.TrackerStatusUndefined)": ".listAll", "return nil, err": ".retErr",
+			"resp := make([]*api.PinInfo, 0)": "", "range statuses": ".forEach", "return resp, nil": ".retNil",
+			"r, err := spt.recoverWithPinInfo(ctx, st)": ".recEntry", "return resp, err": ".retErr", "resp = append(resp, r)": ".appendResp",
+		})
+	}
+	table(&b, "recoverAll", "Tracker.RecoverAll (the loop is one action)", st, "*Tracker", "RecoverAll", rav())
+	tableBody(&b, "recoverAllBody", "Tracker.RecoverAll: one iteration of its loop", st, "*Tracker", "RecoverAll", rav())
+	lsv := mk(
+		map[string]string{"p.Type == api.MetaType": ".isMeta", "p.IsRemotePin(spt.peerID)": ".isRemote", "pinnedInIpfs": ".pinnedInIpfs", "incExtra": ".incExtra",
+			"filter.Match(api.TrackerStatusSharded)": ".fMatch .sharded", "filter.Match(api.TrackerStatusRemote)": ".fMatch .remote"},
+		map[string]string{
+			"ipfsInfo, pinnedInIpfs := localpis[p.MaxDepth.ToPinMode()][p.Cid]": ".lookupOwnMode", "continue": ".skip",
+			"pininfos[p.Cid] = &pinInfo": ".putInfo", "ipfsInfo.Name = p.Name": "", "pininfos[p.Cid] = ipfsInfo": ".putIpfs",
+			"pinInfo.Error = errUnexpectedlyUnpinned.Error()": "",
+		})
+	lsv.prefix = [][2]string{{"pinInfo := api.PinInfo{ Cid: p.Cid, Name: p.Name, Peer: spt.peerID,", ""}}
+	for k, c := range statuses {
+		lsv.acts["pinInfo.Status = "+k] = ".setStatus " + c
+	}
+	tableBody(&b, "localBody", "Tracker.localStatus: one pin of the pinset (the listing StatusAll / RecoverAll start from)", st, "*Tracker", "localStatus", lsv)
+	sav := func() *vocab {
+		return mk(map[string]string{"err == nil": ".errNil", "pi.Status.Match(filter)": ".fMatchSelf"}, map[string]string{
+			"pininfos, err := spt.localStatus(ctx, true, filter)": ".localAll", "return nil, err": ".retErr",
+			"range spt.optracker.GetAll(ctx)": ".overlayOps", "var pis []*api.PinInfo": "", "range pininfos": ".filterLoop", "return pis, nil": ".retNil",
+			"pininfos[infop.Cid] = infop": ".putOp", "pis = append(pis, pi)": ".appendResp",
+		})
+	}
+	table(&b, "statusAll", "Tracker.statusAll (each loop is one action)", st, "*Tracker", "statusAll", sav())
+	tableBodyN(&b, "statusAllOverlay", "Tracker.statusAll: the overlay of the operation table", st, "*Tracker", "statusAll", sav(), 0)
+	tableBodyN(&b, "statusAllFilter", "Tracker.statusAll: the last filter", st, "*Tracker", "statusAll", sav(), 1)
 	consts(&b, "phaseConsts", op, "Phase")
 	consts(&b, "typeConsts", op, "OperationType")
 	b.WriteString("end CV.C05.Gen.Sem\n")
